@@ -23,7 +23,7 @@ Init == pcase \in {d \in POFamFlat(MaxParts) \cup POFamBrace(MaxParts) \cup POFa
 Next == UNCHANGED pcase
 
 \* values of the plural subject to try (a plural-free message reads $n too)
-Ns == IF MsgHasPlural(PBody) THEN PONs ELSE <<3>>
+Ns == PONsFor(pcase)
 Envs == [i \in 1..Len(Ns) |-> POEnv(Ns[i])]
 \* (nothing about a plural-free message depends on the locale)
 Locs == IF MsgHasPlural(PBody) THEN Locales ELSE {"en"}
